@@ -41,7 +41,9 @@ func New(g Config) *Position {
 }
 
 func (p *Position) Clone() *Position {
-	return alloc(p)
+	n := alloc(p)
+	n.analyze()
+	return n
 }
 
 type Square []Piece
